@@ -1262,11 +1262,11 @@ func (r *Resolver) addSubscription(triggerID uint64, add *addSubscription) error
 			for _, sub := range trig.snapshotSubscriptions() {
 				sub.writeError(r.errorFormatter, sub.ctx, err, sub.resolve.Response)
 			}
-			r.doneTriggerFromUpdater(triggerID)
+			r.doneTriggerFromUpdater(triggerID, trig.updater)
 			return
 		}
 
-		r.markTriggerInitialized(triggerID)
+		r.markTriggerInitialized(triggerID, trig.updater)
 
 		if r.options.Debug {
 			fmt.Printf("resolver:trigger:started:%d\n", triggerID)
@@ -1275,16 +1275,23 @@ func (r *Resolver) addSubscription(triggerID uint64, add *addSubscription) error
 	return nil
 }
 
-func (r *Resolver) getTrigger(id uint64) (*trigger, bool) {
+// getTrigger looks a trigger up by id. Trigger ids are derived from input and headers, so a
+// trigger that was removed and a trigger created later for the same input share an id. A caller
+// that belongs to one particular trigger (its updater, its start goroutine) passes that trigger's
+// updater as owner and only ever gets its own trigger, never a successor with the same id.
+func (r *Resolver) getTrigger(id uint64, owner *subscriptionUpdater) (*trigger, bool) {
 	r.mu.Lock()
 	trig, ok := r.triggers[id]
 	r.mu.Unlock()
+	if ok && owner != nil && trig.updater != owner {
+		return nil, false
+	}
 	return trig, ok
 }
 
 // markTriggerInitialized marks a trigger as initialized and reports it.
-func (r *Resolver) markTriggerInitialized(triggerID uint64) {
-	trig, ok := r.getTrigger(triggerID)
+func (r *Resolver) markTriggerInitialized(triggerID uint64, owner *subscriptionUpdater) {
+	trig, ok := r.getTrigger(triggerID, owner)
 	if !ok {
 		return
 	}
@@ -1296,11 +1303,17 @@ func (r *Resolver) markTriggerInitialized(triggerID uint64) {
 
 // doneTriggerFromUpdater performs cleanup for a trigger from a datasource/updater goroutine.
 // It detaches the trigger, runs done toClose (close completed channels), and cancels the trigger context.
-func (r *Resolver) doneTriggerFromUpdater(triggerID uint64) {
+func (r *Resolver) doneTriggerFromUpdater(triggerID uint64, owner *subscriptionUpdater) {
 	if r.options.Debug {
 		fmt.Printf("resolver:trigger:shutdown:%d\n", triggerID)
 	}
 	r.mu.Lock()
+	if trig, ok := r.triggers[triggerID]; ok && trig.updater != owner {
+		// The owner's trigger is already gone and a new trigger was registered under the same
+		// id (same input and headers): it is not ours to tear down.
+		r.mu.Unlock()
+		return
+	}
 	res := r.detachTriggerLocked(triggerID)
 	if r.reporter != nil {
 		r.reporter.SubscriptionCountDec(res.removed)
@@ -1317,8 +1330,8 @@ func (r *Resolver) doneTriggerFromUpdater(triggerID uint64) {
 
 // handleTriggerComplete delivers a complete signal to all subscriptions on the trigger.
 // Does NOT detach the trigger — Done() does that.
-func (r *Resolver) handleTriggerComplete(triggerID uint64) {
-	trig, ok := r.getTrigger(triggerID)
+func (r *Resolver) handleTriggerComplete(triggerID uint64, owner *subscriptionUpdater) {
+	trig, ok := r.getTrigger(triggerID, owner)
 	if !ok {
 		return
 	}
@@ -1333,8 +1346,8 @@ func (r *Resolver) handleTriggerComplete(triggerID uint64) {
 
 // handleTriggerError delivers a terminal error to all subscriptions on the trigger,
 // bypassing the resolve pipeline. Does NOT detach the trigger — Done() does that.
-func (r *Resolver) handleTriggerError(triggerID uint64, data []byte) {
-	trig, ok := r.getTrigger(triggerID)
+func (r *Resolver) handleTriggerError(triggerID uint64, data []byte, owner *subscriptionUpdater) {
+	trig, ok := r.getTrigger(triggerID, owner)
 	if !ok {
 		return
 	}
@@ -1493,8 +1506,8 @@ type pendingFilterError struct {
 }
 
 // handleTriggerUpdate sends data to all subscriptions of a trigger.
-func (r *Resolver) handleTriggerUpdate(id uint64, data []byte) {
-	trig, ok := r.getTrigger(id)
+func (r *Resolver) handleTriggerUpdate(id uint64, data []byte, owner *subscriptionUpdater) {
+	trig, ok := r.getTrigger(id, owner)
 	if !ok {
 		return
 	}
@@ -1521,8 +1534,8 @@ func (r *Resolver) handleTriggerUpdate(id uint64, data []byte) {
 }
 
 // handleUpdateSubscription sends data to a single subscription.
-func (r *Resolver) handleUpdateSubscription(id uint64, data []byte, subIdentifier SubscriptionIdentifier) {
-	trig, ok := r.getTrigger(id)
+func (r *Resolver) handleUpdateSubscription(id uint64, data []byte, subIdentifier SubscriptionIdentifier, owner *subscriptionUpdater) {
+	trig, ok := r.getTrigger(id, owner)
 	if !ok {
 		return
 	}
@@ -1543,7 +1556,13 @@ func (r *Resolver) handleUpdateSubscription(id uint64, data []byte, subIdentifie
 }
 
 func (r *Resolver) heartbeatTriggerSubscriptions(id uint64) {
-	trig, ok := r.getTrigger(id)
+	r.heartbeatOwnedTriggerSubscriptions(id, nil)
+}
+
+// heartbeatOwnedTriggerSubscriptions is heartbeatTriggerSubscriptions restricted to the trigger
+// that belongs to owner (see getTrigger); a nil owner accepts any trigger registered under id.
+func (r *Resolver) heartbeatOwnedTriggerSubscriptions(id uint64, owner *subscriptionUpdater) {
+	trig, ok := r.getTrigger(id, owner)
 	if !ok {
 		return
 	}
@@ -1942,7 +1961,7 @@ func (s *subscriptionUpdater) Update(data []byte) {
 	if s.debug {
 		fmt.Printf("resolver:subscription_updater:update:%d\n", s.triggerID)
 	}
-	s.resolver.handleTriggerUpdate(s.triggerID, data)
+	s.resolver.handleTriggerUpdate(s.triggerID, data, s)
 }
 
 func (s *subscriptionUpdater) Heartbeat() {
@@ -1951,7 +1970,7 @@ func (s *subscriptionUpdater) Heartbeat() {
 	if s.done || s.ctx.Err() != nil {
 		return
 	}
-	s.resolver.heartbeatTriggerSubscriptions(s.triggerID)
+	s.resolver.heartbeatOwnedTriggerSubscriptions(s.triggerID, s)
 }
 
 func (s *subscriptionUpdater) UpdateSubscription(id SubscriptionIdentifier, data []byte) {
@@ -1963,7 +1982,7 @@ func (s *subscriptionUpdater) UpdateSubscription(id SubscriptionIdentifier, data
 	if s.debug {
 		fmt.Printf("resolver:subscription_updater:update:%d\n", s.triggerID)
 	}
-	s.resolver.handleUpdateSubscription(s.triggerID, data, id)
+	s.resolver.handleUpdateSubscription(s.triggerID, data, id, s)
 }
 
 func (s *subscriptionUpdater) Subscriptions() map[context.Context]SubscriptionIdentifier {
@@ -1982,7 +2001,7 @@ func (s *subscriptionUpdater) Complete() {
 	if s.debug {
 		fmt.Printf("resolver:subscription_updater:complete:%d\n", s.triggerID)
 	}
-	s.resolver.handleTriggerComplete(s.triggerID)
+	s.resolver.handleTriggerComplete(s.triggerID, s)
 }
 
 func (s *subscriptionUpdater) Error(data []byte) {
@@ -1997,7 +2016,7 @@ func (s *subscriptionUpdater) Error(data []byte) {
 	if s.debug {
 		fmt.Printf("resolver:subscription_updater:error:%d\n", s.triggerID)
 	}
-	s.resolver.handleTriggerError(s.triggerID, data)
+	s.resolver.handleTriggerError(s.triggerID, data, s)
 }
 
 func (s *subscriptionUpdater) Done() {
@@ -2010,7 +2029,7 @@ func (s *subscriptionUpdater) Done() {
 	if s.debug {
 		fmt.Printf("resolver:subscription_updater:done:%d\n", s.triggerID)
 	}
-	s.resolver.doneTriggerFromUpdater(s.triggerID)
+	s.resolver.doneTriggerFromUpdater(s.triggerID, s)
 }
 
 func (s *subscriptionUpdater) CloseSubscription(id SubscriptionIdentifier) {
